@@ -114,6 +114,9 @@ Proof.
    apply import_run_frame in EI; destruct ir; inversion E; subst; auto).
 Qed.
 
+Lemma migrate_frame ev sy s : R (pi s) (pi (migrate crc ev sy s)).
+Proof. unfold migrate. destruct (_ && _); auto. rewrite pi_set_doc. auto. Qed.
+
 Lemma gw_feed_frame k s s' r : gw_feed fixed crc delcrc fire k s = (s', r) -> R (pi s) (pi s').
 Proof.
   unfold gw_feed. intros E. set (ev := nth (N.to_nat k) (evs s) absent_doc) in *.
@@ -124,7 +127,8 @@ Proof.
   destruct (d_st ev); [inversion E; subst; auto| |];
   (destruct (is_tomb ev && no_xattrs ev); [inversion E; subst; auto|];
    destruct (d_sync ev) as [sy|];
-   [destruct (sd_is_sg_write sy (d_cas ev) (body_crc crc delcrc ev) (d_vv ev)); [inversion E; subst; auto|eauto]
+   [destruct (sd_is_sg_write sy (d_cas ev) (body_crc crc delcrc ev) (d_vv ev));
+      [inversion E; subst; destruct (s_att sy); auto using migrate_frame|eauto]
    |destruct (is_tomb ev); [inversion E; subst; auto|eauto]]).
 Qed.
 
